@@ -55,6 +55,10 @@ impl GC {
         // (a list of pending objects instead of recursion: arrays can be nested very deeply)
         let mut pending = vec![o];
         while let Some(o) = pending.pop() {
+            // a number is not an object, even if its bits are the address of one
+            if !o.is_heap_allocated() {
+                continue;
+            }
             if let Some(pos) = self.positions.get(&o.as_ptr()).copied() {
                 self.remove_at(pos);
 
